@@ -10,6 +10,15 @@ Local Open Scope N_scope.
 Fixpoint incr (lo : N) (l : list N) : Prop := match l with [] => True | x :: r => lo <= x /\ incr (N.succ x) r end.
 Definition pending (s : kstate) : list N := map im_tid (m_imms (s_mem s)).
 Definition seg_of (im : imm) : N * list cver := (im_wal im, im_vers im).
+(* the WAL segments, grouped by the memtables (oldest first, each with its WAL number): a memtable holds what the
+   segments up to its WAL number hold that no older memtable holds.  After a rotation a memtable is one segment; a
+   memtable recovered at open is paired with the writer's segment and may span an older segment too *)
+Definition seg_upto (w : N) (e : N * list cver) : bool := N.leb (fst e) w.
+Fixpoint wal_groups (wal : list (N * list cver)) (mts : list (N * list cver)) : Prop :=
+  match mts with
+  | [] => wal = []
+  | m :: r => flat_map snd (filter (seg_upto (fst m)) wal) = snd m /\ wal_groups (filter (fun e => negb (seg_upto (fst m) e)) wal) r
+  end.
 
 (* a checkpoint directory: exactly the live tables, an empty WAL, and it shows the view it remembers *)
 Record ckpt_ok (ck : ckpt) : Prop := {
@@ -48,8 +57,10 @@ Record Inv (s : kstate) : Prop := {
   i_seq_man : mf_seq (m_man (s_mem s)) <= q_visible (s_sq s);
   i_floor : q_floor (s_sq s) <= q_visible (s_sq s);
   i_kept : o_kept (s_orc s) <= q_floor (s_sq s);
-  (* the WAL holds exactly the memtables, segment by segment *)
-  i_wal : d_wal (s_disk s) = map seg_of (m_imms (s_mem s)) ++ [(m_active_wal (s_mem s), m_active (s_mem s))];
+  (* the WAL holds exactly the memtables, group of segments by group of segments; the writer's segment is the last *)
+  i_wal : wal_groups (d_wal (s_disk s)) (map seg_of (m_imms (s_mem s)) ++ [(m_active_wal (s_mem s), m_active (s_mem s))]);
+  i_wal_last : exists pre vs, d_wal (s_disk s) = pre ++ [(m_wal (s_mem s), vs)];
+  i_imm_wal : forall im, In im (m_imms (s_mem s)) -> im_wal im < m_active_wal (s_mem s);
   i_wal_cur : m_wal (s_mem s) = m_active_wal (s_mem s);
   i_wal_incr : incr (mf_log (m_man (s_mem s))) (map fst (d_wal (s_disk s)));
   (* what a fresh reader sees is the committed view *)
@@ -71,7 +82,7 @@ Definition checkpoint_content_stmt (rs : list rstep) : Prop :=
     let s0 := krun bsz rs ops0 kinit in
     let s2 := krun bsz rs ops1 (checkpoint bsz c s0) in
     exists ck, aget c (s_ckpts s2) = Some ck /\
-      let o := open_ckpt ck (s_ckpts s2) in
+      let o := open_ckpt bsz ck (s_ckpts s2) in
       Inv o /\ forall k snap, q_visible (s_sq o) <= snap -> kread o snap k = view_get (s_view s0) k.
 
 (* (b) after any history between the checkpoint and the restore — flushes and compactions that hand out table ids the
@@ -97,7 +108,7 @@ Definition post_restore_behaves_like_fresh_open_of_checkpoint_partial_stmt (rs :
     let s := krun bsz rs ops0 kinit in
     aget c (s_ckpts s) = Some ck ->
     (0 < mf_seq (d_man (ck_disk ck)) \/ q_visible (s_sq s) = 0) ->
-    kouts bsz rs ops (fst (kstep bsz rs s (OpRestore c))) = kouts bsz rs ops (open_ckpt ck (s_ckpts s)).
+    kouts bsz rs ops (fst (kstep bsz rs s (OpRestore c))) = kouts bsz rs ops (open_ckpt bsz ck (s_ckpts s)).
 
 (* in every case — the excluded corner included — the restored store satisfies the invariant and every read through
    the cache, at any snapshot from the visible one on, returns the view the checkpoint remembers *)
